@@ -2,7 +2,7 @@
 
 (a) comparison law, grid: (p,g) in {(0,0),(2,0),(2,1),(2,2),(3,3),(9,9)}; for every anchor in {0, +-1, +-10^(p+g), 10^30} every stored pair (a, a+delta)
     with |delta| <= 3*geps+3 (capped at +-1600 around the interesting band for 9+9): a == b iff |a-b| < 10^g/2 stored units (iff a = b when g = 0),
-    otherwise the order is that of the stored values; exactly one of <, ==, > holds; != <= >= consistent; maxDiff/minDiff statistics updated as documented.
+    otherwise the order is that of the stored values; exactly one of <, ==, > holds; != <= >= consistent; maxDiff/minDiff statistics updated as documented; Guarded.min returns the value that is lowest as stored.
 (b) guard = 0 is Fixed: every arithmetic operation of the C12 grid at p in {0,1,2,3} gives the same stored integer and the same str() under Guarded(p,0) and Fixed(p);
     and every enumerated profile under wigm / meek / warren gives the same record (actions, tallies, quotas, printed numbers, dump), arithmetic name/info/report apart.
 (c) quasi-exact is exact: wigm / meek / warren under guarded (18,9), (12,6), (9,9) versus rational (same explicit omega): whenever the guarded count's own
@@ -115,6 +115,14 @@ class C13(Check):
                 acc.violation('C13|cmp|stats', 'after comparing %s with %s: maxDiff=%s minDiff=%s, documented values %s / %s'
                               % (a, b, V.maxDiff, V.minDiff, exp_max, exp_min), case)
                 exp_max, exp_min = V.maxDiff, V.minDiff
+        # min() returns the value that is lowest as stored ("find actual minimum value in a list"), whatever the tolerance
+        span = list(range(-2 * geps - 1, 2 * geps + 2)) if geps < 40 else [-2 * geps, -geps - 1, -geps, -geps + 1, -1, 0, 1, geps - 1, geps, geps + 1, 2 * geps]
+        import itertools as _it
+        for combo in _it.product(span[::max(1, len(span) // 9)], repeat=3):
+            acc.evaluations += 1
+            got = V.min([V(a + d, True) for d in combo])
+            if type(got) is not V or got._value != a + min(combo):
+                acc.violation('C13|cmp|min', 'Guarded.min of stored %s at p=%d g=%d returns %r' % ([a + d for d in combo], p, g, got), case)
         acc.sample({'k': 'cmp', 'p': p, 'g': g, 'anchor': case['anchor'], 'pairs': len(deltas)})
 
     # ------------------------------------------------------------------ (b) grid
